@@ -16,7 +16,7 @@ for _i in range(1, 21):
     NOT_APPLICABLE["C%02d" % _i] = "check under construction in this round: not claimed until its harness is committed"
 
 # "fix:" commits made to /repo (genuine defects found by these checks)
-FIX_COMMITS = ["b7b870c (C02 static Solver split with scales)", "055d977 (C17 floyd_warshall)", "48d1978 (C15 ActionInfo::firstMove)", "c551cd9 (C06 calcRouteDist)",
+FIX_COMMITS = ["7efd154 (C15 ConnRef ctor with transactions off)", "b7b870c (C02 static Solver split with scales)", "055d977 (C17 floyd_warshall)", "48d1978 (C15 ActionInfo::firstMove)", "c551cd9 (C06 calcRouteDist)",
                "30473cc (C20 CmpNodePos)", "9f592b9 (C02 IncSolver::solve)"]
 HOOK_COMMITS = []
 
@@ -162,6 +162,24 @@ CHECKS["C05"] = dict(
     exhaustive=False,
     min_nontrivial=dict(quick=800, thorough=40000),
     assumptions=[],
+)
+
+CHECKS["C06"] = dict(
+    stages=[stage("C06", quick=dict(cases=2400, size=100, shards=12), thorough=dict(cases=80000, size=100, shards=16), case_timeout=600)],
+    technique="rapidcheck model-based testing of API histories: a scene model is driven alongside the router and, at every transaction "
+              "boundary, compared differentially with a freshly constructed router on the model's scene",
+    level_text="Generated histories (2-14 operations after the first routing: add shape, moveShape absolute/relative incl. resize, "
+               "deleteShape, move endpoint, add/delete connector, processTransaction; transactions off in 20% of runs) that respect "
+               "the documented preconditions, in both routing modes.  At every transaction boundary every route must be valid for the "
+               "model's current scene and cost exactly (1e-6) what a fresh router computes for that scene (Euclidean length + "
+               "penalty*bends, or Manhattan length + penalty*bends of route()); a following empty transaction must return false "
+               "and leave every route bit-identical.",
+    level_note="Shapes stay >= 1 apart and endpoints >= 1 away from shapes at all times, so both routers face scenes where the optimum "
+               "is well defined (C04/C05's domain).  The differential oracle trusts a fresh router's optimality, which C04/C05 check separately.",
+    rule="rapidcheck-generated operation sequences over a live scene model; non-trivial = the history has >= 2 transactions and moves "
+         "away / deletes a shape whose corner the previous route touched, or adds / moves a shape onto a previous route; distinct by FNV-1a of the case text",
+    min_nontrivial=dict(quick=300, thorough=20000),
+    assumptions=["no moveShape/deleteShape of a shape added in the same open transaction (documented precondition)"],
 )
 
 for _k in CHECKS:
